@@ -653,9 +653,14 @@ pub const fn sbb(&self, rhs: &Self, mut borrow: Limb) -> (ret__: (Self, Limb))
     requires LIMBS >= 1 || borrow.0 == 0 || borrow.0 == u64::MAX
     ensures ret__.1.0 == 0 || ret__.1.0 == u64::MAX,
         ret__.0.v() - bb(ret__.1) * bp(LIMBS as nat) == self.v() - rhs.v() - (borrow.0 >> 63) as int,
-        ret__.0.v() == (self.v() - rhs.v() - (borrow.0 >> 63) as int) % bp(LIMBS as nat)
+        ret__.0.v() == (self.v() - rhs.v() - (borrow.0 >> 63) as int) % bp(LIMBS as nat),
+        (borrow.0 == 0 || borrow.0 == u64::MAX) ==> ret__.0.v() - bb(ret__.1) * bp(LIMBS as nat) == self.v() - rhs.v() - bb(borrow)
 //@-
 {
+//@+
+    let ghost bw = borrow.0;
+    assert((bw == 0 || bw == 0xffff_ffff_ffff_ffffu64) ==> bw >> 63 == (if bw == 0xffff_ffff_ffff_ffffu64 { 1u64 } else { 0u64 })) by (bit_vector);
+//@-
 //@+
     let ghost borrow0 = borrow;
     proof { lemma_bp1(); }
